@@ -109,3 +109,12 @@ Definition int_sums (f : aggfn) (vs : list value) : bool :=
   | FSum | FAvg => match ints_of (nonnull vs) with Some _ => true | None => false end
   | _ => true
   end.
+
+(* SUM / AVG arguments are integers or NULL on every input row (the proof of query_correct covers
+   integer sums; sums of doubles are covered by the correspondence run only) *)
+Definition q_int_sums (q : aquery) (t : table) : bool :=
+  forallb (fun a => match a_fn a with
+                    | FSum | FAvg => forallb (fun o => match o with Some VNull | Some (VInt _) => true | _ => false end)
+                                             (arg_vals a (input_rows q t))
+                    | _ => true
+                    end) (q_aggs q).
